@@ -1,6 +1,8 @@
 package main
 
 import (
+	"os/exec"
+	"context"
 	"encoding/json"
 	"fmt"
 	"go/types"
@@ -157,6 +159,10 @@ func checkCmd(args []string) {
 	var generatorFailures []string
 	for _, k := range keys {
 		fc := cs.Funcs[k]
+		if fc.Missing {
+			generatorFailures = append(generatorFailures, fmt.Sprintf("%s.%s: the function named by the contract does not exist in the current tree", shortPkg(fc.Pkg), fc.Key))
+			continue
+		}
 		res := generate(ld, cs, fc)
 		funcs = append(funcs, res.Name)
 		for _, u := range res.Unsupported {
@@ -288,6 +294,63 @@ func checkCmd(args []string) {
 		}
 		funcs = append(funcs, fmt.Sprintf("%d pinned format constants/tables (contracts/format_constants.json)", n))
 	}
+	// pure lemmas of the property (contracts/lemmas/<prop>-*.smt2): hand-written SMT
+	// scripts that close an abstract step between a proved postcondition and the
+	// property statement; each must be unsat (cvc5 with induction)
+	if lemmas, _ := filepath.Glob(filepath.Join(verifDir(), "contracts", "lemmas", prop+"-*.smt2")); len(lemmas) > 0 {
+		sort.Strings(lemmas)
+		for _, lf := range lemmas {
+			name := "lemma:" + strings.TrimSuffix(filepath.Base(lf), ".smt2")
+			t0 := time.Now()
+			ctxT, cancel := context.WithTimeout(context.Background(), 120*time.Second)
+			out, _ := exec.CommandContext(ctxT, "cvc5", "--quant-ind", lf).CombinedOutput()
+			cancel()
+			ans := strings.TrimSpace(strings.SplitN(strings.TrimSpace(string(out))+"\n", "\n", 2)[0])
+			nObl++
+			present[name] = ans
+			solverTime += time.Since(t0).Seconds()
+			reports = append(reports, oblReport{name, "lemma", ans, "cvc5 --quant-ind", time.Since(t0).Seconds(), filepath.Base(lf)})
+			if ans == "unsat" {
+				nDis++
+				byBackend["cvc5 --quant-ind (lemma scripts)"]++
+				continue
+			}
+			violations++
+			path := filepath.Join(verifDir(), "replay", fmt.Sprintf("%s-%s.json", prop, mangle(name)))
+			rf := map[string]any{"property": prop, "obligation": name, "what": "lemma script not proved: answer " + ans, "script": lf, "solver_output": string(out), "failing_input": nil,
+				"rerun": "cvc5 --quant-ind " + lf}
+			b, _ := json.MarshalIndent(rf, "", " ")
+			os.WriteFile(path, b, 0o644)
+			fmt.Printf("VIOLATION property=%s replay=%s obligation=%s (lemma script not proved: %s) no-failing-input-found\n", prop, path, name, ans)
+		}
+		funcs = append(funcs, fmt.Sprintf("%d lemma scripts (contracts/lemmas/%s-*.smt2)", len(lemmas), prop))
+	}
+	// bounded supplement (reported separately, never counted as proved)
+	var boundedCov map[string]any
+	if spec, ok := supplements[prop]; ok {
+		res := runMonitor(prop, tier, "")
+		if res.Err != nil {
+			generatorFailures = append(generatorFailures, "bounded supplement: "+res.Err.Error())
+		}
+		for _, f := range res.Fails {
+			name := "monitor:" + f.Case
+			violations++
+			path := filepath.Join(verifDir(), "replay", fmt.Sprintf("%s-%s.json", prop, mangle(f.Case)))
+			rf := map[string]any{"property": prop, "obligation": name, "kind": "bounded-monitor", "case": f.Case, "what": f.What, "tier": tier,
+				"failing_input": "the case string is the input (kind/chain/entropy name); `./check replay <this file>` re-runs the supplement on the real code",
+				"contract": spec.Title, "rerun": "cd /verif && ./check " + prop + " " + tier}
+			b, _ := json.MarshalIndent(rf, "", " ")
+			os.WriteFile(path, b, 0o644)
+			fmt.Printf("VIOLATION property=%s replay=%s obligation=%s (%s)\n", prop, path, name, f.What)
+		}
+		var smp []any
+		for _, x := range res.Samples {
+			smp = append(smp, x)
+		}
+		boundedCov = map[string]any{"evaluations": res.Evals, "distinct_nontrivial": res.Nontrivial, "rule": res.Rule, "samples": smp, "failing_cases": len(res.Fails),
+			"contract_monitored": spec.Title, "note": "bounded run-time supplement on the real code; not part of obligations/discharged"}
+		funcs = append(funcs, "bounded supplement: monitor/"+spec.File+" in package "+spec.Pkg)
+	}
 	// C03: panic containment of the goroutines spawned on the decoding side
 	if prop == "C03" {
 		for _, c := range goContainedObligations(ld) {
@@ -383,6 +446,9 @@ func checkCmd(args []string) {
 		"evaluations":              nObl,
 		"distinct_nontrivial":      nObl,
 		"rule":                     "one evaluation = one named verification condition generated from the current SSA of a function under contract and decided by an SMT solver for all inputs; all are distinct (different goal formulas)",
+	}
+	if boundedCov != nil {
+		cov["bounded"] = boundedCov
 	}
 	ev := map[string]any{
 		"property_id": prop, "tier": tier, "seed": seed, "level": level, "coverage": cov,
